@@ -152,7 +152,7 @@ impl Property for ParseAgreement {
             .into()
     }
     fn budget(&self, tier: Tier) -> Budget {
-        Budget { cases: tier.pick(400_000, 6_000_000), tape_len: 600 }
+        Budget { cases: tier.pick(1_500_000, 6_000_000), tape_len: 600 }
     }
     fn decode(&self, t: &mut Tape<'_>) -> ParseCase {
         let f = pick_family(t);
@@ -259,7 +259,7 @@ impl Property for RoundTrip {
             .into()
     }
     fn budget(&self, tier: Tier) -> Budget {
-        Budget { cases: tier.pick(400_000, 6_000_000), tape_len: 500 }
+        Budget { cases: tier.pick(1_500_000, 6_000_000), tape_len: 500 }
     }
     fn decode(&self, t: &mut Tape<'_>) -> RoundCase {
         let f = pick_family(t);
@@ -341,7 +341,7 @@ impl Property for Update {
             .into()
     }
     fn budget(&self, tier: Tier) -> Budget {
-        Budget { cases: tier.pick(300_000, 4_000_000), tape_len: 1000 }
+        Budget { cases: tier.pick(1_000_000, 4_000_000), tape_len: 1000 }
     }
     fn decode(&self, t: &mut Tape<'_>) -> UpdateCase {
         let f = pick_family(t);
